@@ -78,7 +78,7 @@ var trLeanKeywords = map[string]bool{
 	"attribute": true, "set_option": true, "noncomputable": true, "partial": true, "protected": true, "opaque": true,
 	"axiom": true, "calc": true, "nomatch": true, "nofun": true, "suffices": true, "obtain": true, "fuel": true, "this": true,
 	"open_": true, "index": true, "setIndex": true, "slice": true, "len": true, "idiv": true, "imod": true, "idivE": true, "imodE": true,
-	"fuelGe": true, "fuelLt": true, "sortSearch": true, "foldlE": true, "decide": true, "id": true, "not": true, "max": true, "min": true, "sorry": true, "admit": true, "unsafe": true, "implemented_by": true, "pure": true, "bind": true, "some": true, "none": true, "true": true, "false": true,
+	"fuelGe": true, "fuelLt": true, "sortSearch": true, "foldlE": true, "decide": true, "id": true, "not": true, "max": true, "min": true, "sorry": true, "admit": true, "unsafe": true, "implemented_by": true, "pure": true, "bind": true, "some": true, "none": true, "true": true, "false": true, "True": true, "False": true,
 }
 
 // trMangle makes a Go identifier usable as a Lean identifier.
